@@ -68,7 +68,7 @@ COEFS = [[2.0, -0.75], [-1.5, 0.5], [0.25, 3.0], [1.0, 1.0], [-1.0, 4.0]]
 BKGS = [0.25, 1.0, 0.001, 7.5]
 
 
-def concretise(rec, level, tid, rng, variant, lat, fullq=False):
+def concretise(rec, level, tid, rng, variant, lat, fullq=False, shuffled=False):
     n = rec["size"]
     lo10, hi10 = rec["span"]
     lo, hi = 10.0 ** lo10, 10.0 ** hi10
@@ -84,12 +84,18 @@ def concretise(rec, level, tid, rng, variant, lat, fullq=False):
     else:
         xi = [lo * (hi / lo) ** (i / (n - 1)) for i in range(n)]
     xi[-1] = min(xi[-1], hi)
+    if shuffled and n >= 5:
+        # the interior lengths in another order (first, second and last - from which the calculated q range is
+        # chosen - stay where they are): each returned value belongs to the length at the same position
+        mid = xi[2:-1]
+        r = rng.randrange(1, len(mid))
+        xi = xi[:2] + mid[r:] + mid[:r] + xi[-1:]
     lamc = rec["lam"]
     if lamc == "tof":
         lam = [2.0 + 10.0 * i / (n - 1) for i in range(n)] if n > 1 else [7.0]
     else:
         lam = [{"l2": 2.0, "l5": 5.0, "l10": 10.0}[lamc]] * n
-    sc = {"tid": tid, "level": level, "cfg": rec, "variant": variant, "xi": xi, "lam": lam, "acc": rec["acc"],
+    sc = {"tid": tid, "level": level, "cfg": rec, "variant": variant, "xi": xi, "shuffled": bool(shuffled and n >= 5), "lam": lam, "acc": rec["acc"],
           "fullq": bool(fullq), "amps": rng.sample(AMPS, 4), "coefs": rng.sample(COEFS, 3),
           "bkg": rng.sample(BKGS, 4), "gauss": lat["GAUSS"], "mixtures": lat["MIXTURES"],
           "lam_scalar": rng.random() < 0.5}
@@ -130,13 +136,20 @@ def make_scenarios(chk, lat):
     else:
         plan = [("transform", r, i % 2) for i, r in enumerate(cover_then_fill(lat["LATTICE"], 56, rng))]
         plan += [("dm", r, i % 2) for i, r in enumerate(cover_then_fill(lat["DMLATTICE"], 24, rng))]
-    nfull = 0
+    nfull = ndefault = 0
     for level, rec, variant in plan:
         tid += 1
         # the whole q_calc is logged for a bounded number of traces (it has 1e4..7e4 elements)
         fullq = (tid % (40 if thorough else 7) == 1)
         nfull += fullq
-        scen.append(concretise(rec, level, tid, rng, variant, lat, fullq))
+        # every second data set through DirectModel / Gxi and every fourth transform has its interior lengths
+        # in a non-increasing order
+        shuffled = (tid % 2 == 0) if level == "dm" else (tid % 4 == 0)
+        if level == "dm" and rec["acc"] == "full" and rec["lam"] == "l5" and rec["size"] >= 5:
+            # the set-up that direct_model.Gxi builds by itself: alternately shuffled and increasing
+            ndefault += 1
+            shuffled = (ndefault % 2 == 1)
+        scen.append(concretise(rec, level, tid, rng, variant, lat, fullq, shuffled))
     chk.notes["whole_q_calc_logged_for"] = nfull
     return scen
 
